@@ -109,6 +109,7 @@ def run(idx: ProgramIndex, rep: Report, tier: str):
     residual_layout(idx, rep)
     per_member_kwargs(idx, rep)
     member_argument_arity(idx, rep)
+    woodbury_identity(idx, rep)
     rep.assume("exception safety is outside the statement: a deepcopy that raises (e.g. non-leaf cached tensors) leaves the source with nulled attributes, but then no fantasy model was created")
 
 
@@ -906,3 +907,31 @@ def member_argument_arity(idx: ProgramIndex, rep: Report):
                     "the member's inputs are handed over as one argument" if ok else
                     "`%s` spreads the member's input tuple over the positional parameters of get_fantasy_model(inputs, targets) (no *args in %s): a member with several inputs (a Hadamard multitask GP, forward(x, i)) raises TypeError 'takes 3 positional arguments but 4 were given'" % (" ".join(src(c).split())[:60], ", ".join(sorted({f.cls.name for f in fixed}))[:80]), {})
     rep.floor("C04-13", "containers delegating get_fantasy_model to members", n, 1)
+
+
+# ---- C04-14 --------------------------------------------------------------------------------------------------------
+def woodbury_identity(idx: ProgramIndex, rep: Report):
+    """The WISKI fantasy caches of InterpolatedPredictionStrategy invert K_UU^-1 + W D^-1 W' through the Woodbury identity: with
+    L L' = W D^-1 W' the matrix that is solved against is Q = L' K_UU L + I.  The identity is written `.add_jitter(1.0)` - a
+    call that looks like numerical regularisation but is the `+ I` of the formula.  The clause: every fantasy cache of the class that
+    builds Q adds exactly the identity (an explicit constant 1), and the sibling caches agree."""
+    rep.rule("C04-14", "the Woodbury matrix Q = L' K_UU L + I of the WISKI fantasy caches adds exactly the identity (add_jitter with the explicit constant 1) in every cache that builds it")
+    S = idx.find_class("InterpolatedPredictionStrategy")
+    n = 0
+    for name, m in sorted(S.methods.items()):
+        if not name.startswith("fantasy_"):
+            continue
+        for c in calls_in(m.node):
+            if not (isinstance(c.func, ast.Attribute) and c.func.attr == "add_jitter"):
+                continue
+            # the receiver is a product L' (K L): a matmul chain
+            recv = c.func.value
+            if not any(isinstance(x, ast.Call) and isinstance(x.func, ast.Attribute) and x.func.attr == "matmul" for x in ast.walk(recv)) and not any(isinstance(x, ast.BinOp) and isinstance(x.op, ast.MatMult) for x in ast.walk(recv)):
+                continue
+            n += 1
+            arg = c.args[0] if c.args else next((k.value for k in c.keywords if k.arg == "jitter_val"), None)
+            ok = isinstance(arg, ast.Constant) and isinstance(arg.value, (int, float)) and not isinstance(arg.value, bool) and arg.value == 1
+            rep.add("C04-14", "%s:InterpolatedPredictionStrategy.%s[Q = L'KL + I]" % (S.module.name, name), "%s:%d" % (m.module.relpath, c.lineno), ok,
+                    "adds the identity: add_jitter(1)" if ok else
+                    "`%s` adds %s to L' K_UU L instead of the identity of the Woodbury formula: the fantasy cache built from this Q is not the inverse of the updated K_UU^-1 + W D^-1 W' (the posterior of the fantasy model differs from conditioning on the concatenated data)" % (" ".join(src(c).split())[-60:], "the default jitter" if arg is None else "`%s`" % src(arg)), {})
+    rep.floor("C04-14", "WISKI fantasy caches that build the Woodbury matrix", n, 2)
